@@ -43,6 +43,7 @@ class VecuModel:
         self.S = 1
         self.sec: Any = None
         self.last_sa: Any = None  # (type, seed bytes | UNKNOWN)
+        self.sa_ambiguous = False  # an exchange without any observable reply may or may not have cleared the seed memory
         self.sf_services = {sid for d in self.M.values() for sid, v in d.items() if v is not None}
 
     def is_sf(self, sid: int) -> bool:
@@ -84,7 +85,8 @@ class VecuModel:
         if sw["sub_function_not_supported"] and sfreq and sid != 0x31 and len(q) < 2:
             # only reachable with rule 2 switched off: there is no sub-function byte to judge. The statement does not say
             # whether rule 3 then applies ("unknown sub-function") or is skipped; accept either negative answer.
-            self.last_sa = None
+            if reply is not None:
+                self.last_sa = None  # a response was produced; without one nothing changes
             ok = reply in (nr(0x12), nr(0x7E), nr(0x13), nr(0x10)) or (reply is None and not sw["none"])
             return Verdict(ok, "3:no-sub-function-byte", "" if ok else "expected a negative response", nr(0x13))
         if sw["incorrect_format"] and raw:
@@ -128,8 +130,12 @@ class VecuModel:
                     was_suppressed = sw["suppress"] and suppress
                     v = positive("6:request-seed", None, lambda r: r[0] == 0x67 and r[1] == sf)
                     self.last_sa = (sf, UNKNOWN if was_suppressed or reply is None else reply[2:])
+                    self.sa_ambiguous = False
                     return v
                 last, self.last_sa = self.last_sa, None
+                amb, self.sa_ambiguous = self.sa_ambiguous, False
+                if amb and reply == nr(0x24):
+                    return Verdict(True, "6:send-key-sequence")  # the seed may have been forgotten by the unobservable exchange before
                 if last is None or sf != last[0] + 1:
                     if reply == nr(0x24):
                         return Verdict(True, "6:send-key-sequence")
@@ -150,12 +156,19 @@ class VecuModel:
                     return Verdict(True, "6:send-key-invalid")
                 return Verdict(False, "6:send-key-invalid", "expected invalidKey", nr(0x35))
         # generic: handler of the service, or generalReject / nothing
+        if reply is None and not (sw["suppress"] and suppress) and not sw["none"]:
+            # no handler answered and the generalReject default is switched off: no response was produced at all,
+            # so nothing changes (in particular an outstanding seed stays valid)
+            return Verdict(True, "6:no-handler-no-default")
+        if reply is None and sw["suppress"] and suppress and not sw["none"]:
+            # either a positive response was produced and withheld (seed memory cleared) or nothing was produced at all
+            # (seed memory kept): not observable from outside
+            self.sa_ambiguous = self.last_sa is not None
+            return Verdict(True, "6:handler+suppressed")
         self.last_sa = None
         if reply is None:
             if sw["suppress"] and suppress:
                 return Verdict(True, "6:handler+suppressed")
-            if not sw["none"]:
-                return Verdict(True, "6:no-handler-no-default")
             return Verdict(False, "6:handler", "no response to a request that is due a response")
         if reply[0] == 0x7F:
             ok = len(reply) == 3 and reply[1] == sid
